@@ -237,6 +237,37 @@ theorem erc20_short_tail_btc_refused (id : Ident) (d0 : Fungible) (t resp : Byte
 
 example : ShortTailWF ⟨5, List.replicate 20 7, none⟩ (List.replicate 32 1) := by decide
 
+/-- Substrate deposit data followed by ANY trailing bytes (padding of the recipient to a word, stray bytes): the proposal
+    carries exactly the recipient bytes the length word delimits; the trailing bytes are not part of the deposit -/
+theorem sub_tail_to_evm (id : Ident) (d0 : Fungible) (t : Bytes) (h : TailWF d0 t) :
+    relay ⟨.sub, .evm, id, Src.fungible d0 ++ t, [], 0⟩ =
+      .ok ⟨id, .evm (Canon.evmFungible d0.amount d0.recipient none), none⟩ := by
+  have hw : (pad32 d0.amount).length = 32 := pad32_length _ h.1
+  refine relay_ok (by rw [source_sub]; exact sub_src_tail id d0 t h) ?_
+  rw [dest_evm]
+  simp [evmHandle, fungibleData_word _ _ hw, Canon.evmFungible, Src.optTail]
+
+theorem sub_tail_to_sub (id : Ident) (d0 : Fungible) (t : Bytes) (h : TailWF d0 t) :
+    relay ⟨.sub, .sub, id, Src.fungible d0 ++ t, [], 0⟩ = .ok ⟨id, .evm (Canon.subFungible d0.amount d0.recipient), none⟩ := by
+  have hw : (pad32 d0.amount).length = 32 := pad32_length _ h.1
+  refine relay_ok (by rw [source_sub]; exact sub_src_tail id d0 t h) ?_
+  rw [dest_sub]
+  simp [subHandle, fungibleData_word _ _ hw, Canon.subFungible]
+
+theorem sub_tail_to_btc (id : Ident) (d0 : Fungible) (t : Bytes) (h : TailWF d0 t) (hfit : d0.amount / 10 ^ 10 < 2 ^ 64) :
+    relay ⟨.sub, .btc, id, Src.fungible d0 ++ t, [], 0⟩ = .ok ⟨id, .btc (d0.amount / 10 ^ 10) d0.recipient, none⟩ :=
+  relay_ok (by rw [source_sub]; exact sub_src_tail id d0 t h)
+    (by rw [dest_btc]; exact btcHandle_ok _ _ _ _ _ (by rw [beToNat_pad32]) hfit)
+
+theorem sub_tail_to_btc_refused (id : Ident) (d0 : Fungible) (t : Bytes) (h : TailWF d0 t)
+    (hbig : ¬ d0.amount / 10 ^ 10 < 2 ^ 64) :
+    relay ⟨.sub, .btc, id, Src.fungible d0 ++ t, [], 0⟩ = .errDst :=
+  relay_errDst (by rw [source_sub]; exact sub_src_tail id d0 t h)
+    (by rw [dest_btc]; exact btcHandle_big _ _ _ _ (by rw [beToNat_pad32]; exact hbig))
+
+/-- non-vacuity: a 20-byte recipient padded to a full word -/
+example : TailWF ⟨5, List.replicate 20 7, none⟩ (List.replicate 12 0) := by decide
+
 /-- Substrate and Bitcoin destinations take fungible transfers only: a message of any other type is refused (definitional) -/
 theorem nonfungible_refused (dk : DstKind) (hk : dk ≠ .evm) (m : Msg) (ht : m.typ ≠ .fungible) : dest dk m = .err := by
   obtain ⟨id, typ, payload, gas⟩ := m
@@ -249,6 +280,19 @@ theorem erc721_non_evm_refused (id : Ident) (token : Nat) (r md resp : Bytes) (n
     (dk : DstKind) (hk : dk ≠ .evm) :
     relay ⟨.erc721, dk, id, Src.nft token r md, resp, n⟩ = .errDst :=
   relay_errDst (by rw [source_erc721]; exact nft_src id token r md h) (nonfungible_refused dk hk _ (by simp))
+
+/-- ERC721 deposit data followed by trailing bytes: they are not part of the deposit -/
+theorem erc721_tail_evm_to_evm (id : Ident) (token : Nat) (r md t resp : Bytes) (n : Nat) (h : NftWF token r md) :
+    relay ⟨.erc721, .evm, id, Src.nft token r md ++ t, resp, n⟩ = .ok ⟨id, .evm (Canon.nft token r md), none⟩ := by
+  have hw : (pad32 token).length = 32 := pad32_length _ h.1
+  refine relay_ok (by rw [source_erc721]; exact nft_src_tail id token r md t h) ?_
+  rw [dest_evm]
+  simp [evmHandle, leftPad_of_length (Nat.le_of_eq hw.symm), Canon.nft]
+
+theorem erc721_tail_non_evm_refused (id : Ident) (token : Nat) (r md t resp : Bytes) (n : Nat) (h : NftWF token r md)
+    (dk : DstKind) (hk : dk ≠ .evm) :
+    relay ⟨.erc721, dk, id, Src.nft token r md ++ t, resp, n⟩ = .errDst :=
+  relay_errDst (by rw [source_erc721]; exact nft_src_tail id token r md t h) (nonfungible_refused dk hk _ (by simp))
 
 theorem generic_non_evm_refused (id : Ident) (fee : Nat) (fs ca dep ex resp : Bytes) (n : Nat)
     (h : GenericWF fee fs ca dep ex) (dk : DstKind) (hk : dk ≠ .evm) :
@@ -339,30 +383,39 @@ theorem expected_sound (i : Input) (e : Out) (h : expected i = some e) : relay i
       · rw [if_neg hc] at h; cases h
   | sub =>
     simp only [] at h
-    generalize hd : parseFungible cd = d at h
-    by_cases hc : Src.fungible d = cd ∧ d.WF ∧ d.opt = none ∧ num = 0
+    generalize hd0 : (⟨beToNat (List.take 32 cd), (List.drop 64 cd).take (beToNat ((List.drop 32 cd).take 32)), none⟩ : Fungible) = d0 at h
+    generalize ht : List.drop (64 + beToNat ((List.drop 32 cd).take 32)) cd = t at h
+    by_cases hc : Src.fungible d0 ++ t = cd ∧ TailWF d0 t ∧ num = 0
     · rw [if_pos hc] at h
-      obtain ⟨hcd, hwf, ho, hn⟩ := hc
-      subst hcd
+      obtain ⟨hcd, hwf, hn⟩ := hc
       subst hn
+      subst hd0
       cases dk with
       | evm =>
         simp only [Option.some.injEq] at h; rw [← h]
-        have := sub_to_evm id d hwf
+        have := sub_tail_to_evm id _ t hwf
+        rw [hcd] at this
         simp only [relay, source, dest] at this ⊢
         exact this
       | sub =>
         simp only [Option.some.injEq] at h; rw [← h]
-        have := sub_to_sub id d hwf
+        have := sub_tail_to_sub id _ t hwf
+        rw [hcd] at this
         simp only [relay, source, dest] at this ⊢
         exact this
       | btc =>
         simp only [] at h
-        by_cases hf : d.amount / 10 ^ 10 < 2 ^ 64
+        by_cases hf : beToNat (List.take 32 cd) / 10 ^ 10 < 2 ^ 64
         · rw [if_pos hf] at h; simp only [Option.some.injEq] at h; rw [← h]
-          exact sub_to_btc id d hwf hf
+          have := sub_tail_to_btc id _ t hwf hf
+          rw [hcd] at this
+          simp only [relay, source, dest] at this ⊢
+          exact this
         · rw [if_neg hf] at h; simp only [Option.some.injEq] at h; rw [← h]
-          exact sub_to_btc_refused id d hwf hf
+          have := sub_tail_to_btc_refused id _ t hwf hf
+          rw [hcd] at this
+          simp only [relay, source, dest] at this ⊢
+          exact this
     · rw [if_neg hc] at h; cases h
   | erc721 =>
     simp only [] at h
@@ -370,16 +423,20 @@ theorem expected_sound (i : Input) (e : Out) (h : expected i = some e) : relay i
     generalize hm : (List.drop (96 + beToNat ((List.drop 32 cd).take 32)) cd).take
       (beToNat ((List.drop (64 + beToNat ((List.drop 32 cd).take 32)) cd).take 32)) = md at h
     generalize ht : beToNat (List.take 32 cd) = t at h
-    by_cases hc : Src.nft t r md = cd ∧ NftWF t r md
+    generalize htl : List.drop (96 + beToNat ((List.drop 32 cd).take 32) +
+      beToNat ((List.drop (64 + beToNat ((List.drop 32 cd).take 32)) cd).take 32)) cd = tl at h
+    by_cases hc : Src.nft t r md ++ tl = cd ∧ NftWF t r md
     · rw [if_pos hc] at h
       obtain ⟨hcd, hwf⟩ := hc
       by_cases hk : dk = .evm
       · rw [if_pos hk] at h; subst hk
-        simp only [Option.some.injEq] at h; rw [← h, ← hcd]
-        exact erc721_evm_to_evm id t r md resp num hwf
+        simp only [Option.some.injEq] at h; rw [← h]
+        have := erc721_tail_evm_to_evm id t r md tl resp num hwf
+        rw [hcd] at this; exact this
       · rw [if_neg hk] at h
-        simp only [Option.some.injEq] at h; rw [← h, ← hcd]
-        exact erc721_non_evm_refused id t r md resp num hwf dk hk
+        simp only [Option.some.injEq] at h; rw [← h]
+        have := erc721_tail_non_evm_refused id t r md tl resp num hwf dk hk
+        rw [hcd] at this; exact this
     · rw [if_neg hc] at h; cases h
   | generic =>
     simp only [] at h
